@@ -2,7 +2,7 @@
 EXTENDS IntoAttr, Json
 CONSTANTS MaxFields, EmitCases
 VARIABLES st, phase
-Attrs == Content \cup {Top}
+Attrs == Content \cup {Top, Parens0}
 Typed(a) == a.k = "top" \/ \E i \in 1..3 : Of(a, Forms[i]) \in {"typed", "both"}
 Init == phase = 0 /\ st = [n |-> 0, skip |-> {}, sa |-> None, fk |-> 0, fa |-> Empty]
 Choose == /\ phase = 0 /\ phase' = 1
